@@ -90,5 +90,7 @@ class PlayerPositionAndLookPacket(Packet, BitFieldEnum):
         else:
             target.pitch = self.pitch
 
-        target.yaw %= 360
-        target.pitch %= 360
+        # The second '%' is needed because a tiny negative angle is rounded
+        # by the first one to exactly 360.0, which is outside [0, 360).
+        target.yaw = target.yaw % 360 % 360
+        target.pitch = target.pitch % 360 % 360
